@@ -3,7 +3,8 @@
    can panic (unreachable!(), slice index, str slice, shift) is an explicit failure value in the
    model; the theorems show these values are never produced. *)
 From Coq Require Import List NArith ZArith.
-From MC Require Import Str Str_proofs Packed Packed_proofs Tree Spec Tree_proofs NoPanic.
+From MC Require Import Str Str_proofs Packed Packed_proofs Tree Spec Tree_proofs NoPanic Transcode_proofs.
+From MC Require Odometer Iter_proofs Iter_cap.
 Import ListNotations.
 
 (* every index any key source hands out (names, numerals, integers of any width, packed words,
@@ -46,6 +47,14 @@ Definition ex_v : value N := VProd [VGate GSok (VProd [VLeaf 1%N; VLeaf 2%N]); V
 Example C16_ex : wf ex_t /\ has_type N ex_t ex_v.
 Proof. simpl. repeat split; try discriminate; try (right; repeat split); auto. Qed.
 
+(* NodeIter::next: its loop never exhausts its budget and never meets an outcome it does not handle
+   (the model's IPanic), for any target (with or without capacity), depth limit and writable root *)
+Theorem C16_iteration_no_panic : forall t tg D' p c, NoPanic.wf t -> small t ->
+  Odometer.descend (Iter_cap.pshape (tg_fail tg) t []) p = Some c ->
+  ~ In IPanic (iter_collect (S (S (length (Odometer.enum D' c)))) t tg
+                 {| i_idx := p ++ Odometer.zeros D'; i_root := length p; i_depth := length p + D' + 1 |}).
+Proof. exact Iter_cap.iter_no_panic. Qed.
+
 Print Assumptions C16_index_in_range.
 Print Assumptions C16_value_ops_no_panic.
 Print Assumptions C16_traversal_no_panic.
@@ -54,3 +63,4 @@ Print Assumptions C16_json_no_panic.
 Print Assumptions C16_pop_wide.
 Print Assumptions C16_push_wide.
 Print Assumptions C16_packed_key_width.
+Print Assumptions C16_iteration_no_panic.
